@@ -772,3 +772,360 @@ Proof.
 Qed.
 
 End Tokens.
+
+(* ------------------------------------------------------------------ *)
+(** * 5. Tokens: floats, decimal specials, one-byte tokens, identifiers *)
+
+Section Tokens2.
+Variable cfg : dcfg.
+
+Lemma classify_decimal : classify cbeTypeDecimal = KDecimal.
+Proof. reflexivity. Qed.
+
+Lemma dec_decimal_infinity (neg : bool) rest :
+  dec_decimal ((if neg then cfNegativeInfinity else cfInfinity) ++ rest) = Some (EDecimal (DInf neg), rest).
+Proof. destruct neg; reflexivity. Qed.
+
+Lemma dec_decimal_nan (s : bool) rest :
+  dec_decimal ((if s then cfSignalingNan else cfQuietNan) ++ rest) = Some (EDecimal (if s then DSNan else DQNan), rest).
+Proof. destruct s; reflexivity. Qed.
+
+Lemma tok_infinity neg : tok_ok cfg (enc_infinity neg) [EDecimal (DInf neg)].
+Proof.
+  unfold enc_infinity. tok_start br rest Hfit. rewrite classify_decimal. cbn [snd fst].
+  rewrite dec_decimal_infinity. unfold tok_one. eexists; split; [reflexivity|]. norm_len. lia.
+Qed.
+
+Lemma tok_nan s : tok_ok cfg (enc_nan s) [EDecimal (if s then DSNan else DQNan)].
+Proof.
+  unfold enc_nan. tok_start br rest Hfit. rewrite classify_decimal. cbn [snd fst].
+  rewrite dec_decimal_nan. unfold tok_one. eexists; split; [reflexivity|]. norm_len. lia.
+Qed.
+
+Lemma tok_zero neg : tok_ok cfg (enc_zero neg) [if neg then ENegInt 0 else EInt 0].
+Proof.
+  destruct neg; cbn [enc_zero].
+  - apply (tok_fix cfg true 1 0); [cbn; auto | rewrite pow256_1; lia].
+  - apply (tok_small_pos cfg 0). lia.
+Qed.
+
+Definition norm_float (b : N) : event :=
+  if FloatBits.f64_is_inf b then EDecimal (DInf (f64_sign b =? 1))
+  else if FloatBits.f64_is_nan b then EDecimal (if negb (FloatBits.f64_quiet_bit b) then DSNan else DQNan)
+  else if f64_is_zero b then (if f64_sign b =? 1 then ENegInt 0 else EInt 0)
+  else EFloat b.
+
+Lemma classify_float w : classify (width_code w) = KFloat w.
+Proof. destruct w; reflexivity. Qed.
+
+Lemma tok_float b : b < 2 ^ 64 -> tok_ok cfg (enc_float b) [norm_float b].
+Proof.
+  intro Hb. unfold enc_float, norm_float.
+  destruct (FloatBits.f64_is_inf b); [apply tok_infinity|].
+  destruct (FloatBits.f64_is_nan b); [apply tok_nan|].
+  destruct (f64_is_zero b); [apply tok_zero|].
+  unfold float_encode.
+  destruct (f64_narrow16 b) as [h|] eqn:H16.
+  - destruct (widen_narrow16 b h Hb H16) as (Hw & Hh & Hnan).
+    change (2 ^ 16) with 65536 in Hh.
+    tok_start br rest Hfit. change (classify cbeTypeFloat16) with (KFloat W16).
+    rewrite read_le_ok by (try (rewrite pow256_2; exact Hh); lia).
+    unfold dec_bf16. rewrite Hnan, Hw. unfold tok_one. tok_done.
+  - destruct (f64_narrow32 b) as [w|] eqn:H32.
+    + destruct (widen_narrow32 b w Hb H32) as (Hw & Hlt & Hnan).
+      change (2 ^ 32) with 4294967296 in Hlt.
+      tok_start br rest Hfit. change (classify cbeTypeFloat32) with (KFloat W32).
+      rewrite read_le_ok by (try (rewrite pow256_4; exact Hlt); lia).
+      unfold dec_f32. rewrite Hnan, Hw. unfold tok_one. tok_done.
+    + change (2 ^ 64) with 18446744073709551616 in Hb.
+      tok_start br rest Hfit. change (classify cbeTypeFloat64) with (KFloat W64).
+      rewrite read_le_ok by (try (rewrite pow256_8; exact Hb); lia).
+      unfold tok_one. tok_done.
+Qed.
+
+(* one-byte tokens *)
+Definition byte_token (e : event) : option N :=
+  match e with
+  | ENull => Some cbeTypeNull | ETrue => Some cbeTypeTrue | EFalse => Some cbeTypeFalse
+  | EList => Some cbeTypeList | EMap => Some cbeTypeMap | EEdge => Some cbeTypeEdge | ENode => Some cbeTypeNode
+  | EEnd => Some cbeTypeEndContainer | EPadding => Some cbeTypePadding
+  | _ => None
+  end.
+
+Lemma tok_byte e c : byte_token e = Some c -> tok_ok cfg [c] [e].
+Proof.
+  intro H. destruct e; try discriminate; injection H as <-; tok_start br rest Hfit;
+    match goal with |- context [classify ?c] => change (classify c) with ltac:(let v := eval vm_compute in (classify c) in exact v) end;
+    unfold tok_one; tok_done.
+Qed.
+
+(* identifiers *)
+Definition id_ok (id : bytes) : Prop := 1 <= len id <= identifier_max_length.
+
+Lemma tok_ref_local id : id_ok id -> tok_ok cfg (cbeTypeLocalReference :: enc_identifier id) [ERefLocal id].
+Proof.
+  intro H. tok_start br rest Hfit. unfold enc_identifier in Hfit. norm_len_in Hfit.
+  change (classify cbeTypeLocalReference) with KRefLocal.
+  rewrite read_identifier_ok by (try exact H; lia). unfold tok_one.
+  eexists; split; [reflexivity|]. unfold enc_identifier. norm_len. lia.
+Qed.
+
+Lemma tok_record id : id_ok id -> tok_ok cfg (cbeTypeRecord :: enc_identifier id) [ERecord id].
+Proof.
+  intro H. tok_start br rest Hfit. unfold enc_identifier in Hfit. norm_len_in Hfit.
+  change (classify cbeTypeRecord) with KRecord.
+  rewrite read_identifier_ok by (try exact H; lia). unfold tok_one.
+  eexists; split; [reflexivity|]. unfold enc_identifier. norm_len. lia.
+Qed.
+
+Lemma classify_plane7f : classify cbeTypePlane7f = KPlane7f.
+Proof. reflexivity. Qed.
+
+Ltac tok_start7f br rest Hfit :=
+  tok_start br rest Hfit; rewrite classify_plane7f; unfold dec_plane7f; rewrite read_u8_ok by lia.
+
+Lemma tok_marker id : id_ok id -> tok_ok cfg ([cbeTypePlane7f; cbeTypeMarker] ++ enc_identifier id) [EMarker id].
+Proof.
+  intro H. tok_start7f br rest Hfit. unfold enc_identifier in Hfit. norm_len_in Hfit.
+  change (classify7f cbeTypeMarker) with K7Marker.
+  rewrite read_identifier_ok by (try exact H; lia). unfold tok_one.
+  eexists; split; [reflexivity|]. unfold enc_identifier. norm_len. lia.
+Qed.
+
+Lemma tok_record_type id : id_ok id -> tok_ok cfg ([cbeTypePlane7f; cbeTypeRecordType] ++ enc_identifier id) [ERecordType id].
+Proof.
+  intro H. tok_start7f br rest Hfit. unfold enc_identifier in Hfit. norm_len_in Hfit.
+  change (classify7f cbeTypeRecordType) with K7RecordType.
+  rewrite read_identifier_ok by (try exact H; lia). unfold tok_one.
+  eexists; split; [reflexivity|]. unfold enc_identifier. norm_len. lia.
+Qed.
+
+Lemma tok_uid d : len d = 16 -> tok_ok cfg (cbeTypeUID :: d) [EUid d].
+Proof.
+  intro H. tok_start br rest Hfit. change (classify cbeTypeUID) with KUid.
+  rewrite (read_bytes_ok cfg (br + 1) 16) by (try exact H; lia). unfold tok_one. tok_done.
+Qed.
+
+End Tokens2.
+
+(* ------------------------------------------------------------------ *)
+(** * 6. Tokens: arrays *)
+
+(* one chunk: element count, continuation flag, the chunk's bytes *)
+Definition chunk := (N * bool * bytes)%type.
+
+Fixpoint enc_chunks (cs : list chunk) : bytes :=
+  match cs with
+  | [] => []
+  | (n, more, d) :: r => uleb_encode (chunk_header n more) ++ d ++ enc_chunks r
+  end.
+
+(* what the decoder reports for the chunks: one data event per chunk, none for an empty chunk *)
+Fixpoint chunk_events (cs : list chunk) : list event :=
+  match cs with
+  | [] => []
+  | (n, more, d) :: r => EArrayChunk n more :: (if len d =? 0 then [] else [EArrayData d]) ++ chunk_events r
+  end.
+
+(* a chunk sequence as the array protocol demands: counts match the data, the last chunk and only it is final *)
+Inductive chunks_wf (width : N) : list chunk -> Prop :=
+| cw_last n d : n < two63 -> len d = elem_bytes width n -> chunks_wf width [(n, false, d)]
+| cw_more n d r : n < two63 -> len d = elem_bytes width n -> chunks_wf width r -> chunks_wf width ((n, true, d) :: r).
+
+Lemma chunk_header_small n more : n < two63 -> chunk_header n more = sign_bit more + 2 * n.
+Proof.
+  intro H. unfold chunk_header, u64, two63, two64 in *. rewrite N.mod_small by lia. lia.
+Qed.
+
+Lemma chunk_header_facts n more :
+  n < two63 ->
+  chunk_header n more < two64 /\ chunk_header n more / 2 = n /\ N.odd (chunk_header n more) = more.
+Proof.
+  intro H. rewrite chunk_header_small by exact H. unfold two63, two64 in *.
+  assert (Hb : sign_bit more < 2) by (destruct more; cbn; lia).
+  split; [lia|]. split.
+  - rewrite N.mul_comm, N.div_add by discriminate. rewrite N.div_small by exact Hb. lia.
+  - rewrite N.odd_add_mul_2. destruct more; reflexivity.
+Qed.
+
+Lemma enc_chunks_length_ge cs : (length cs <= length (enc_chunks cs))%nat.
+Proof.
+  induction cs as [|[[n more] d] r IH]; cbn [enc_chunks length]; [lia|].
+  rewrite !app_length. pose proof (uleb_encode_nonempty (chunk_header n more)) as NE.
+  destruct (uleb_encode (chunk_header n more)); [contradiction|]. cbn [length]. lia.
+Qed.
+
+Ltac tok_start7f br rest Hfit :=
+  tok_start br rest Hfit; rewrite classify_plane7f; unfold dec_plane7f; rewrite read_u8_ok by lia.
+
+Section Tokens3.
+Variable cfg : dcfg.
+
+Lemma dec_chunks_ok width cs :
+  chunks_wf width cs ->
+  forall fuel br rest, (length cs <= fuel)%nat -> fits cfg br (enc_chunks cs ++ rest) ->
+  exists br', dec_chunks cfg fuel width (br, enc_chunks cs ++ rest) = (chunk_events cs, Some (br', rest)) /\
+              br' <= br + len (enc_chunks cs).
+Proof.
+  induction 1 as [n d Hn Hd | n d r Hn Hd Hr IH]; intros fuel br rest Hfuel Hfit;
+    (destruct fuel as [|f]; [cbn [length] in Hfuel; lia|]);
+    destruct (chunk_header_facts n false Hn) as (A1 & A2 & A3);
+    destruct (chunk_header_facts n true Hn) as (B1 & B2 & B3);
+    unfold fits in Hfit; cbn [enc_chunks] in *; norm_len_in Hfit; cbn [dec_chunks]; rewrite <- !app_assoc.
+  - rewrite read_uleb_ok by (try exact A1; unfold max_u64, two64 in *; lia).
+    rewrite A2, A3, <- Hd. cbn [chunk_events]. rewrite app_nil_r.
+    destruct (N.eqb_spec (len d) 0) as [E|E].
+    + apply len_zero in E. subst d. cbn [app]. eexists; split; [reflexivity|]. norm_len. lia.
+    + rewrite (read_bytes_ok cfg br (len d)) by (try reflexivity; lia). cbn [app].
+      eexists; split; [reflexivity|]. norm_len. lia.
+  - rewrite read_uleb_ok by (try exact B1; unfold max_u64, two64 in *; lia).
+    rewrite B2, B3, <- Hd. cbn [chunk_events].
+    destruct (N.eqb_spec (len d) 0) as [E|E].
+    + apply len_zero in E. subst d. cbn [app].
+      destruct (IH f br rest) as (br' & E1 & E2); [cbn [length] in Hfuel; lia | unfold fits; norm_len; norm_len_in Hfit; lia|].
+      rewrite E1. eexists; split; [reflexivity|]. norm_len. lia.
+    + rewrite (read_bytes_ok cfg br (len d)) by (try reflexivity; lia).
+      destruct (IH f (br + len d) rest) as (br' & E1 & E2); [cbn [length] in Hfuel; lia | unfold fits; norm_len; lia|].
+      rewrite E1. cbn [app]. eexists; split; [reflexivity|]. norm_len. lia.
+Qed.
+
+Lemma chunks_fuel_enough br cs rest : (length cs <= chunks_fuel (br, enc_chunks cs ++ rest))%nat.
+Proof.
+  unfold chunks_fuel. cbn [snd]. rewrite app_length. pose proof (enc_chunks_length_ge cs). lia.
+Qed.
+
+(* ---- short arrays ---- *)
+
+Definition short_check (t n : N) : bool :=
+  match array_info t with
+  | Some (short, true, p7) =>
+      let c := N.lor (short mod 256) (n mod 256) in
+      let eb := element_bits t in
+      (elem_bytes eb n =? n * (eb / 8)) &&
+      (if p7 then match classify7f c with
+                  | K7Short t' k n' => (t' =? t) && (k =? eb / 8) && (n' =? n)
+                  | _ => false
+                  end
+       else match classify c with
+            | KString n' => (n' =? n) && (t =? cbeAT_String) && (eb / 8 =? 1)
+            | _ => false
+            end)
+  | _ => true
+  end.
+
+Lemma short_sweep : forallb (fun t => forallb (short_check t) (nseq 0 16)) (nseq 0 256) = true.
+Proof. vm_compute. reflexivity. Qed.
+
+Lemma short_check_ok t n : t < 256 -> n <= 15 -> short_check t n = true.
+Proof.
+  intros Ht Hn. pose proof short_sweep as S. rewrite forallb_forall in S.
+  specialize (S t ltac:(apply nseq_In; cbn; lia)). rewrite forallb_forall in S.
+  apply S, nseq_In. cbn. lia.
+Qed.
+
+Lemma tok_short_array t n d :
+  t < 256 -> n <= 15 -> has_short_form t = true -> len d = elem_bytes (element_bits t) n ->
+  tok_ok cfg (short_header t n ++ d) [EArray t n d].
+Proof.
+  intros Ht Hn Hs Hd. pose proof (short_check_ok t n Ht Hn) as C.
+  unfold short_check in C. unfold has_short_form in Hs. unfold short_header.
+  destruct (array_info t) as [[[short has] p7]|]; [|discriminate]. subst has.
+  cbv zeta in C. apply andb_true_iff in C as [C1 C2]. apply N.eqb_eq in C1. rewrite C1 in Hd.
+  destruct p7.
+  - destruct (classify7f (N.lor (short mod 256) (n mod 256))) as [t' k n'| | | | |] eqn:K; try discriminate.
+    apply andb_true_iff in C2 as [C2 C3]. apply andb_true_iff in C2 as [C2 C4].
+    apply N.eqb_eq in C2, C3, C4. subst t' k n'.
+    cbn [app]. tok_start7f br rest Hfit. rewrite K.
+    rewrite (read_bytes_ok cfg (br + 1 + 1) (n * (element_bits t / 8))) by (try exact Hd; lia).
+    unfold tok_one. tok_done.
+  - destruct (classify (N.lor (short mod 256) (n mod 256))) eqn:K; try discriminate.
+    apply andb_true_iff in C2 as [C2 C3]. apply andb_true_iff in C2 as [C2 C4].
+    apply N.eqb_eq in C2, C3, C4. subst. rewrite C3, N.mul_1_r in Hd.
+    cbn [app]. tok_start br rest Hfit. rewrite K.
+    rewrite (read_bytes_ok cfg (br + 1) n) by (try exact Hd; lia).
+    unfold tok_one. tok_done.
+Qed.
+
+(* ---- regular (chunked) form ---- *)
+
+Definition arr_ok (t : N) : bool :=
+  in_list t [cbeAT_String; cbeAT_ResourceID; cbeAT_ReferenceRemote; cbeAT_Bit; cbeAT_Uint8; cbeAT_Uint16;
+             cbeAT_Uint32; cbeAT_Uint64; cbeAT_Int8; cbeAT_Int16; cbeAT_Int32; cbeAT_Int64;
+             cbeAT_Float16; cbeAT_Float32; cbeAT_Float64; cbeAT_UID].
+
+Definition long_check (t : N) : bool :=
+  if arr_ok t then
+    match enc_array_header t with
+    | Some [c] => match classify c with KChunked t' => t' =? t | _ => false end
+    | Some [p; c] => (p =? cbeTypePlane7f) && match classify7f c with K7Chunked t' => t' =? t | _ => false end
+    | _ => false
+    end
+  else true.
+
+Lemma long_sweep : forallb long_check (nseq 0 256) = true.
+Proof. vm_compute. reflexivity. Qed.
+
+Lemma arr_ok_lt t : arr_ok t = true -> t < 256.
+Proof.
+  unfold arr_ok, in_list. rewrite existsb_exists. intros (x & Hin & E). apply N.eqb_eq in E. subst x.
+  cbn [In] in Hin. repeat (destruct Hin as [<-|Hin]; [reflexivity|]). destruct Hin.
+Qed.
+
+Lemma arr_ok_header t : arr_ok t = true -> exists hd, enc_array_header t = Some hd.
+Proof.
+  intro H. pose proof long_sweep as S. rewrite forallb_forall in S.
+  specialize (S t ltac:(apply nseq_In; pose proof (arr_ok_lt t H); cbn; lia)).
+  unfold long_check in S. rewrite H in S. destruct (enc_array_header t) as [hd|]; [eauto | discriminate].
+Qed.
+
+Lemma tok_long_array t hd cs :
+  arr_ok t = true -> enc_array_header t = Some hd -> chunks_wf (element_bits t) cs ->
+  tok_ok cfg (hd ++ enc_chunks cs) (EArrayBegin t :: chunk_events cs).
+Proof.
+  intros Ht Hh Hcs. pose proof long_sweep as S. rewrite forallb_forall in S.
+  specialize (S t ltac:(apply nseq_In; pose proof (arr_ok_lt t Ht); cbn; lia)).
+  unfold long_check in S. rewrite Ht, Hh in S.
+  destruct hd as [|c1 [|c2 [|c3 hd]]]; try discriminate.
+  - destruct (classify c1) eqn:K; try discriminate. apply N.eqb_eq in S. subst.
+    cbn [app]. tok_start br rest Hfit. rewrite K. unfold dec_array.
+    destruct (dec_chunks_ok (element_bits t) cs Hcs (chunks_fuel (br + 1, enc_chunks cs ++ rest)) (br + 1) rest)
+      as (br' & E1 & E2); [apply chunks_fuel_enough | unfold fits; norm_len; lia|].
+    rewrite E1. eexists; split; [reflexivity|]. norm_len. lia.
+  - apply andb_true_iff in S as [S1 S2]. apply N.eqb_eq in S1. subst c1.
+    destruct (classify7f c2) eqn:K; try discriminate. apply N.eqb_eq in S2. subst.
+    cbn [app]. tok_start7f br rest Hfit. rewrite K. unfold dec_array.
+    destruct (dec_chunks_ok (element_bits t) cs Hcs (chunks_fuel (br + 1 + 1, enc_chunks cs ++ rest)) (br + 1 + 1) rest)
+      as (br' & E1 & E2); [apply chunks_fuel_enough | unfold fits; norm_len; lia|].
+    rewrite E1. eexists; split; [reflexivity|]. norm_len. lia.
+Qed.
+
+(* ---- media and custom ---- *)
+
+Lemma tok_media mt cs :
+  len mt <= media_type_max_length -> chunks_wf 8 cs ->
+  tok_ok cfg (enc_media_begin mt ++ enc_chunks cs) (EMediaBegin mt :: chunk_events cs).
+Proof.
+  intros Hm Hcs. unfold enc_media_begin. rewrite <- !app_assoc. cbn [app].
+  tok_start7f br rest Hfit. change (classify7f cbeTypeMedia) with K7Media.
+  unfold dec_media. rewrite <- !app_assoc.
+  rewrite read_uleb_ok by (try exact Hm; unfold media_type_max_length, two64 in *; lia).
+  rewrite (read_bytes_ok cfg (br + 1 + 1) (len mt)) by (try reflexivity; lia).
+  destruct (dec_chunks_ok 8 cs Hcs (chunks_fuel (br + 1 + 1 + len mt, enc_chunks cs ++ rest)) (br + 1 + 1 + len mt) rest)
+    as (br' & E1 & E2); [apply chunks_fuel_enough | unfold fits; norm_len; lia|].
+  rewrite E1. eexists; split; [reflexivity|]. norm_len. lia.
+Qed.
+
+Lemma tok_custom ct cs :
+  ct <= custom_type_max -> chunks_wf 8 cs ->
+  tok_ok cfg (enc_custom_begin ct ++ enc_chunks cs) (ECustomBegin cbeAT_CustomBinary ct :: chunk_events cs).
+Proof.
+  intros Hc Hcs. unfold enc_custom_begin. cbn [app].
+  tok_start br rest Hfit. change (classify cbeTypeCustomType) with KCustom.
+  unfold dec_custom. rewrite <- !app_assoc.
+  rewrite read_uleb_ok by (try exact Hc; unfold custom_type_max, two64 in *; lia).
+  destruct (dec_chunks_ok 8 cs Hcs (chunks_fuel (br + 1, enc_chunks cs ++ rest)) (br + 1) rest)
+    as (br' & E1 & E2); [apply chunks_fuel_enough | unfold fits; norm_len; lia|].
+  rewrite E1. eexists; split; [reflexivity|]. norm_len. lia.
+Qed.
+
+End Tokens3.
